@@ -252,4 +252,14 @@ def cmdWf (j : Json) : Except String Json := do
   let t ← (← getArr (← field j "trace")).mapM decEv
   pure <| jobj [("wf", .bool (wfFrom [] t)), ("closed", .bool (wfLive [] t == some []))]
 
+/-- {"cmd":"sort","items":[v…],"key":fn1|null,"reverse":b}: items are tagged pairs (value, position) -/
+def cmdSort (j : Json) : Except String Json := do
+  let xs ← (← getArr (← field j "items")).mapM decVal
+  let key ← decOptFn1 (fieldD j "key" .null)
+  let rev ← getBool (← field j "reverse")
+  let tagged := xs.zipIdx.map fun p => Val.tup [p.1, .int p.2]
+  let kf : Val → Val := fun p => total1 key (p.nth 0)
+  let lt : Val → Val → Bool := fun a b => match Val.lt a b with | .ok r => r | .error _ => false
+  pure <| jobj [("out", jarr ((sortBy kf lt rev tagged).map fun v => jobj [("l", jarr ((v.elems.getD []).map encVal))]))]
+
 end Drv
